@@ -29,6 +29,8 @@ pub struct Outcome {
     #[serde(skip)]
     pub event_writes: Vec<(u64, u64, u64, String)>,
     #[serde(skip)]
+    pub bound_is_lock: Vec<bool>,
+    #[serde(skip)]
     pub snapshot: Option<String>,
     #[serde(skip)]
     pub pair_answer: Option<(bool, String)>,
@@ -38,9 +40,13 @@ static RUN_COUNTER: AtomicU64 = AtomicU64::new(0);
 /// crash injection: unwind before the CRASH_AT-th storage write (0 = disarmed)
 static CRASH_AT: AtomicU64 = AtomicU64::new(0);
 static WRITES: AtomicU64 = AtomicU64::new(0);
+/// C17: storage writes and lock intents, numbered together (pause points of the first operation)
+static BOUNDS: AtomicU64 = AtomicU64::new(0);
 static CRASH_SITE: std::sync::Mutex<Option<(String, u64)>> = std::sync::Mutex::new(None);
 static HOOK_INSTALLED: AtomicBool = AtomicBool::new(false);
 thread_local! {
+    /// per boundary (write or lock intent) of this run: is it a lock intent?
+    static BOUND_IS_LOCK: std::cell::RefCell<Vec<bool>> = std::cell::RefCell::new(Vec::new());
     static WRITE_SITES: std::cell::RefCell<Vec<&'static str>> = std::cell::RefCell::new(Vec::new());
 }
 
@@ -191,6 +197,15 @@ pub fn writes_now() -> u64 {
     WRITES.load(Ordering::SeqCst)
 }
 
+pub fn bounds_now() -> u64 {
+    BOUNDS.load(Ordering::SeqCst)
+}
+
+static PAUSED_AT_LOCK_INTENT: AtomicBool = AtomicBool::new(false);
+pub fn take_paused_at_lock_intent() -> bool {
+    PAUSED_AT_LOCK_INTENT.swap(false, Ordering::SeqCst)
+}
+
 pub fn disarm_crash() {
     CRASH_AT.store(0, Ordering::SeqCst);
     *CRASH_SITE.lock().unwrap_or_else(|e| e.into_inner()) = None;
@@ -203,6 +218,28 @@ fn install_write_hook() {
     crate::verif_hooks::install(Some(std::sync::Arc::new(|p| {
         if let crate::verif_hooks::Point::Iter(_) = p {
             reader_iteration_hook();
+        }
+        if matches!(p, crate::verif_hooks::Point::BeforeWrite(_) | crate::verif_hooks::Point::LockIntent(_)) {
+            let b = BOUNDS.fetch_add(1, Ordering::SeqCst) + 1;
+            let _ = BOUND_IS_LOCK.try_with(|v| v.borrow_mut().push(matches!(p, crate::verif_hooks::Point::LockIntent(_))));
+            let pause = PAUSE_AT.load(Ordering::SeqCst);
+            if pause != 0 && b == pause {
+                let job = PAIR_JOB.lock().unwrap_or_else(|e| e.into_inner()).take();
+                if let Some(job) = job {
+                    PAUSE_AT.store(0, Ordering::SeqCst);
+                    let mut rx = spawn_pair(job);
+                    // parked here: the second operation either finishes (it ran inside this
+                    // one) or it does not (it waits for a lock this one holds)
+                    let st = match rx.recv_timeout(std::time::Duration::from_millis(250)) {
+                        Ok(r) => PairState::RanInside(r),
+                        Err(_) => PairState::Blocked(rx),
+                    };
+                    if matches!(p, crate::verif_hooks::Point::LockIntent(_)) {
+                        PAUSED_AT_LOCK_INTENT.store(true, Ordering::SeqCst);
+                    }
+                    *PAIR_STATE.lock().unwrap_or_else(|e| e.into_inner()) = Some(st);
+                }
+            }
         }
         if let crate::verif_hooks::Point::BeforeWrite(site) = p {
             let n = WRITES.fetch_add(1, Ordering::SeqCst) + 1;
@@ -229,21 +266,6 @@ fn install_write_hook() {
             };
             if hit {
                 panic!("VERIF-CRASH {}", site);
-            }
-            let pause = PAUSE_AT.load(Ordering::SeqCst);
-            if pause != 0 && n == pause {
-                let job = PAIR_JOB.lock().unwrap_or_else(|e| e.into_inner()).take();
-                if let Some(job) = job {
-                    PAUSE_AT.store(0, Ordering::SeqCst);
-                    let mut rx = spawn_pair(job);
-                    // parked here: the second operation either finishes (it ran inside this
-                    // one) or it does not (it waits for a lock this one holds)
-                    let st = match rx.recv_timeout(std::time::Duration::from_millis(250)) {
-                        Ok(r) => PairState::RanInside(r),
-                        Err(_) => PairState::Blocked(rx),
-                    };
-                    *PAIR_STATE.lock().unwrap_or_else(|e| e.into_inner()) = Some(st);
-                }
             }
         }
     })));
@@ -363,7 +385,16 @@ pub fn execute_pair(plan: &Plan, verbose: bool) -> Outcome {
         base.stats.insert("probe.c17.history_without_writes".into(), 1);
         return base;
     }
-    let (k, e, kind) = ks[((slot.wrapping_mul(7919) + 13) % ks.len() as u64) as usize].clone();
+    // alternate between storage-write boundaries and lock intents (there are many more of the
+    // latter: every filter timer tick takes the lock)
+    let want_lock = slot % 3 == 2;
+    let pool: Vec<(u64, u64, String)> = ks
+        .iter()
+        .filter(|(k, _, _)| base.bound_is_lock.get(*k as usize - 1).cloned().unwrap_or(false) == want_lock)
+        .cloned()
+        .collect();
+    let pool = if pool.is_empty() { ks.clone() } else { pool };
+    let (k, e, kind) = pool[((slot.wrapping_mul(7919) + 13) % pool.len() as u64) as usize].clone();
     let mut outs = Vec::new();
     for mode in ["before", "after", "during"] {
         let mut p = plan.clone();
@@ -387,6 +418,9 @@ pub fn execute_pair(plan: &Plan, verbose: bool) -> Outcome {
     }
     let mut stats: BTreeMap<String, u64> = BTreeMap::new();
     stats.insert("probe.c17.cases".into(), 1);
+    if out.stats.contains_key("probe.c17.paused_before_taking_the_lock") {
+        stats.insert("probe.c17.paused_before_taking_the_lock".into(), 1);
+    }
     stats.insert(format!("c17.A.{}", kind), 1);
     stats.insert(format!("c17.B.{}", PAIR_OPS[op as usize]), 1);
     let what = format!(
@@ -504,6 +538,8 @@ pub fn execute_one(plan: &Plan, verbose: bool) -> Outcome {
         let dir = fresh_dir();
         install_write_hook();
         WRITES.store(0, Ordering::SeqCst);
+        BOUNDS.store(0, Ordering::SeqCst);
+        BOUND_IS_LOCK.with(|v| v.borrow_mut().clear());
         WRITE_SITES.with(|w| w.borrow_mut().clear());
         let crash_at = plan
             .flags
@@ -537,6 +573,7 @@ pub fn execute_one(plan: &Plan, verbose: bool) -> Outcome {
             entropy_calls: entropy::calls(),
             write_sites: sites.iter().map(|s| s.to_string()).collect(),
             event_writes: std::mem::take(&mut sim.event_writes),
+            bound_is_lock: BOUND_IS_LOCK.with(|v| v.borrow().clone()),
             snapshot: sim.snapshot.take(),
             pair_answer: sim.pair_answer.take(),
         };
